@@ -99,7 +99,13 @@ func (k Keeper) CallEVMWithData(
 		true,                  // checkNonce
 	)
 
-	res, err := k.evmKeeper.ApplyMessage(ctx, msg, evmtypes.NewNoOpTracer(), true)
+	// Run the message and its post-processing hooks on a branch of the state: ApplyMessage commits
+	// the EVM state to the branch, and the branch is written back only if the hooks succeed too
+	// (same approach as ethermint's ApplyTransaction). Otherwise a hook failure would be reported
+	// as an error while the EVM effects of the call had already been persisted.
+	tmpCtx, commit := ctx.CacheContext()
+
+	res, err := k.evmKeeper.ApplyMessage(tmpCtx, msg, evmtypes.NewNoOpTracer(), true)
 	if err != nil {
 		return nil, err
 	}
@@ -110,10 +116,14 @@ func (k Keeper) CallEVMWithData(
 			TxHash: common.HexToHash(res.Hash),
 		}
 		// Only call hooks if tx executed successfully.
-		if err = k.evmKeeper.PostTxProcessing(ctx, msg, receipt); err != nil {
+		if err = k.evmKeeper.PostTxProcessing(tmpCtx, msg, receipt); err != nil {
 			// If hooks return error, revert the whole tx.
 			res.VmError = evmtypes.ErrPostTxProcessing.Error()
 			k.Logger(ctx).Error("tx post processing failed", "error", err)
+		} else {
+			// PostTxProcessing is successful, commit the tmpCtx
+			commit()
+			ctx.EventManager().EmitEvents(tmpCtx.EventManager().Events())
 		}
 	}
 	if res.Failed() {
